@@ -213,7 +213,7 @@ XDECL = {
 }
 
 
-def load_witness(kind, table=False):
+def load_witness(kind, table=False, hy=False):
     """X-MIB declares one symbol of `kind`; Y-MIB imports exactly that symbol and uses it; both are generated with the REAL
     template, executed against one MibBuilder; True = both load and export what they declare"""
     from harness import realpipe
@@ -236,6 +236,8 @@ def load_witness(kind, table=False):
         else:
             ybody = 'usesIt OBJECT IDENTIFIER ::= { exported 1 }'
         uses = 'usesIt'
+    if hy:
+        xbody, ybody, name = xbody.replace('exported', 'ex-ported'), ybody.replace('exported', 'ex-ported'), name.replace('exported', 'ex-ported')
     x = 'X-MIB DEFINITIONS ::= BEGIN\n%s;\n%s\nEND\n' % (HEAD, xbody)
     y = 'Y-MIB DEFINITIONS ::= BEGIN\n%s\n  %s FROM X-MIB;\n%s\nEND\n' % (HEAD, name, ybody)
     try:
@@ -243,7 +245,7 @@ def load_witness(kind, table=False):
         ns, mb = realpipe.execute_set([('X-MIB', codes['X-MIB']), ('Y-MIB', codes['Y-MIB'])])
     except Exception:
         return False
-    return name in mb.mibSymbols.get('X-MIB', {}) and uses in mb.mibSymbols.get('Y-MIB', {})
+    return name.replace('-', '_') in mb.mibSymbols.get('X-MIB', {}) and uses in mb.mibSymbols.get('Y-MIB', {})
 
 
 def template_witnesses():
